@@ -78,6 +78,10 @@ func renderObsProcs(sc *Scenario, meta *c20Meta) {
 					q = fmt.Sprintf("SET @@WITHOUT_NULL TO FALSE; SELECT COUNT(*) FROM %s;", t)
 				case 9:
 					q = fmt.Sprintf("VAR @v%d := (SELECT MAX(n) FROM %s); SELECT 1 FROM %s LIMIT 1;", i, t, t)
+				case 10:
+					q = fmt.Sprintf("SELECT COUNT(*) FROM %s; SHOW TABLES;", t)
+				case 11:
+					q = fmt.Sprintf("SET @@CPU TO 2; SELECT COUNT(*) FROM %s; ADD '%%Y' TO @@DATETIME_FORMAT;", t)
 				default:
 					q = fmt.Sprintf("SELECT COUNT(*) FROM `./%s.csv`;", t)
 				}
@@ -152,7 +156,7 @@ func (c20) Gen(seed uint64, tier string) *Scenario {
 					ops = append(ops, ObsOp{Kind: "sel", Table: tb, Form: r.Pick(0, 0, 0, 1, 2, 3, 4)})
 				case 3:
 					if r.Bool(0.5) {
-						ops = append(ops, ObsOp{Kind: "touch", Table: tb, Form: r.Intn(10)})
+						ops = append(ops, ObsOp{Kind: "touch", Table: tb, Form: r.Intn(12)})
 					} else {
 						ops = append(ops, ObsOp{Kind: "noop", Table: tb, Form: r.Intn(2)})
 					}
